@@ -177,4 +177,53 @@ def feedChunks : (buf : Bytes) → List Bytes → List Frame × Option Bytes
     | (fs, some rest) => let (fs', r) := feedChunks rest cs; (fs ++ fs', r)
     | (fs, none) => (fs, none)
 
+/-! ## gossip messages (`engine/live.rs` `Op`, decoded by `engine/gossip.rs::receive_loop`) -/
+
+inductive GOp where
+  /-- `Op::Put(SignedEntry)` -/
+  | put (e : WEntry)
+  /-- `Op::ContentReady(Hash)` -/
+  | contentReady (hash : Bytes)
+  /-- `Op::SyncReport(SyncReport { namespace, heads })`; `heads` are encoded `AuthorHeads` -/
+  | syncReport (ns heads : Bytes)
+deriving DecidableEq, Repr
+
+def encGOp : GOp → Bytes
+  | .put e => encVarint 0 ++ encEntry e
+  | .contentReady h => encVarint 1 ++ h
+  | .syncReport ns heads => encVarint 2 ++ ns ++ encBytes heads
+
+/-- `postcard::from_bytes::<Op>` (trailing bytes are ignored) -/
+def decGOp (bs : Bytes) : Option GOp := do
+  let (tag, rest) ← decTag bs
+  if tag = 0 then do
+    let (e, _) ← decEntry rest
+    pure (.put e)
+  else if tag = 1 then do
+    let (h, _) ← takeN 32 rest
+    pure (.contentReady h)
+  else if tag = 2 then do
+    let (ns, rest) ← takeN 32 rest
+    let (heads, _) ← decBytes rest
+    pure (.syncReport ns heads)
+  else none
+
+/-- what `receive_loop` does with a received message: the request it sends on -/
+inductive GossipEffect where
+  /-- `SyncHandle::insert_remote(namespace, entry, from, status)`: status 0 complete (the message came
+  directly from a neighbour), 2 missing -/
+  | insertRemote (e : WEntry) (from_ : Bytes) (status : Nat)
+  | neighborContentReady (node hash : Bytes)
+  | incomingSyncReport (from_ ns heads : Bytes)
+  /-- undecodable bytes end the receive loop of the document with an error -/
+  | loopFails
+deriving DecidableEq, Repr
+
+def gossipReceive (content from_ : Bytes) (direct : Bool) : GossipEffect :=
+  match decGOp content with
+  | some (.put e) => .insertRemote e from_ (if direct then 0 else 2)
+  | some (.contentReady h) => .neighborContentReady from_ h
+  | some (.syncReport ns heads) => .incomingSyncReport from_ ns heads
+  | none => .loopFails
+
 end Codec
